@@ -14,13 +14,14 @@ import (
 // An Atom is something a target function can reference: a constant, a helper function, a
 // closure, a flag. Atoms live in files (package build files or helper modules).
 type Atom struct {
-	Name string
-	File string   // "pkg:<path>" or "lib:<name>"
-	Kind string   // const | func | factory | closure | flag
-	Lit  string   // const: the literal; func/factory: a literal used inside the body; closure: the captured literal
-	Def  string   // func: literal default parameter value ("" = none)
-	Refs []string // names of atoms (visible in the same file) this atom's code references
-	Pad  int      // number of comment lines rendered before it (comment edits)
+	Name    string
+	File    string   // "pkg:<path>" or "lib:<name>"
+	Kind    string   // const | func | factory | closure | flag
+	PrevLit string   // the literal before the last atom-lit edit ("" = never edited)
+	Lit     string   // const: the literal; func/factory: a literal used inside the body; closure: the captured literal
+	Def     string   // func: literal default parameter value ("" = none)
+	Refs    []string // names of atoms (visible in the same file) this atom's code references
+	Pad     int      // number of comment lines rendered before it (comment edits)
 }
 
 type Tgt struct {
@@ -41,6 +42,8 @@ type Tgt struct {
 	// Spell gives, per dependency label, the (legal, non-canonical) spelling written in the build
 	// file, e.g. "//p2/:t1" or "//p1//sub:t3" for "//p2:t1" / "//p1/sub:t3".
 	Spell map[string]string
+	// DupDeps lists dependencies that the build file names a second time, in front of the list (deps=[d, ..., d, ...])
+	DupDeps []string
 }
 
 // respell returns a legal non-canonical spelling of an absolute target label.
@@ -278,6 +281,17 @@ func (p *Proj) RenderFile(id string) string {
 		for i, d := range deps {
 			if sp, ok := t.Spell[d]; ok {
 				deps[i] = sp
+			}
+		}
+		// a dependency named twice: deps=[d, <the others>, d', <one more>] - d' may be another spelling of d
+		for _, d := range t.DupDeps {
+			if contains(t.Deps, d) && len(deps) > 0 {
+				mid := (len(deps) + 1) / 2
+				again := d
+				if len(t.Name)%2 == 0 {
+					again = respell(d, len(d))
+				}
+				deps = append(deps[:mid:mid], append([]string{again}, deps[mid:]...)...)
 			}
 		}
 		if len(deps) > 0 {
@@ -555,6 +569,11 @@ func (g *Gen) Project() *Proj {
 					t.GenSrc = append(t.GenSrc, d.Label())
 				}
 			}
+		}
+		if len(t.Deps) > 0 && r.IntN(8) == 0 {
+			// the same dependency named twice (the second time possibly in another spelling), followed by the others
+			dup := t.Deps[0]
+			t.DupDeps = append(t.DupDeps, dup)
 		}
 		for rel := range p.Srcs {
 			dir := filepath.Dir(rel)
